@@ -3,7 +3,8 @@ from .api import api_queries, api_query, SCALE
 from .methods import METHODS, BY_NAME, method_query
 
 BUILD_ARGS = {"scale": None}
-QUICK_METHODS = ["md5crypt", "nt", "bigcrypt", "descrypt", "bsdicrypt", "sha1crypt", "sunmd5", "sha256crypt", "sha512crypt"]
+QUICK_METHODS = ["md5crypt", "nt", "bigcrypt", "descrypt", "bsdicrypt", "sunmd5"]
+THOROUGH_METHODS = QUICK_METHODS + ["sunmd5-comma", "sunmd5-rounds", "sunmd5-comma-rounds", "sha256crypt", "sha256crypt-rounds", "sha512crypt", "sha512crypt-rounds", "sha1crypt"]
 META = {
     "level": "other",
     "explanation": "CBMC with all pointer/bounds/overflow/shift checks on each real crypt_<m>_rn, called as do_crypt calls it: output and scratch are two objects of the real sizes (any write outside them, e.g. into the application-owned setting/input fields, is an out-of-object access), phrase and setting are exact-fit objects (the NUL is the last byte), digest kernels are havoc models that check readability of their input ranges; stretch loops abstracted after K iterations.",
@@ -23,7 +24,7 @@ META = {
 
 def queries(tier, seed, build):
     qs = []
-    names = QUICK_METHODS
+    names = QUICK_METHODS if tier == "quick" else THOROUGH_METHODS
     for n in names:
         m = BY_NAME[n]
         qs.append(method_query(m, "c04-" + n, cap_k=3 if tier == "quick" else 8,
